@@ -15,4 +15,22 @@ CHECKS = {
         "thorough": {"shards": 16, "parallel": 16, "timeout": 3000, "min_nontrivial": 1000,
                      "families": [{"name": "win", "shards": 4, "env": {"VF_WIN": "1"}}]},
     },
+    "C03": {
+        "test": "TestVF_C03", "race": True, "level": "exploration",
+        "race_anchor_files": ["buffer.go"], "race_is_violation": True,
+        "exhaustive_key": "exhaustive_streams",
+        "exhaustive_note": "the bounded part enumerates every stream up to the stated length over {a,b,LF,CR,Ctrl-C} x every segmentation x every op sequence of length <= 3 over {line, junk-line, block(0|1|2)} plus block(len); the random part is sampled",
+        "rule": "bounded-exhaustive: all streams of length <= 5 (thorough 7) over {a,b,LF,CR,0x03} x all 2^(n-1) segmentations x all op sequences (<=3 ops) the reference parser can complete, results and popBuffer remainder compared with the one-cursor reference parser; random: protocol-shaped streams (lines, wrapped lines, binary blocks with embedded delimiters, interrupts) fed segment by segment to a concurrently reading trzszBuffer, every op the model calls completable must return before the next segment is supplied. non-trivial = the real buffer executed at least one op and its results were compared; distinct = distinct (length,prefix) classes / (ops,segments,policy,len) tuples",
+        "assumptions": ["reference parser (40 lines) is the specification of line / junk-tolerant line / sized block reads", "timeouts are not exercised here (nil timeout); C11/C18 cover them"],
+        "quick": {"shards": 16, "parallel": 16, "timeout": 600, "min_nontrivial": 100},
+        "thorough": {"shards": 16, "parallel": 16, "timeout": 3000, "min_nontrivial": 1000},
+    },
+    "C04": {
+        "test": "TestVF_C04", "race": True, "level": "exploration",
+        "race_anchor_files": ["escape.go", "pipeline.go"],
+        "rule": "all 256 single bytes and all 65536 byte pairs under both built-in tables; seeded payloads (0..300 KB, thorough 1 MiB; biased to protected bytes and runs of the leader) x {both built-ins as parsed from a real CFG, random well-formed announced tables parsed by the real UnmarshalJSON} through escapeData/unescapeData and through the real streaming chain escapeWriter -> arbitrary re-segmentation (incl. between leader and code) -> recvDataReader -> escapeReader with destination sizes {1,2,3,7,4096,32768}, with and without zstd in front; every undefined code must be rejected; real binary uploads through the filter with a tap asserting that no protected byte appears between ACT and EXIT. non-trivial = round trip and both streaming directions were compared (or, for wire cases, the upload completed and its tap was scanned); distinct = (table, payload size) / case id",
+        "assumptions": ["random tables: injective, always containing the leader, codes outside the protected set (what a conforming server announces)"],
+        "quick": {"shards": 16, "parallel": 16, "timeout": 600, "min_nontrivial": 100},
+        "thorough": {"shards": 16, "parallel": 16, "timeout": 3000, "min_nontrivial": 1000},
+    },
 }
